@@ -3,7 +3,7 @@ from . import sesscheck as SC
 
 MODULE = "Props.C10"
 PROFILE = {"publish": 6, "ack": 4, "inbound": 10, "connect": 10, "fault": 10, "restart": 0.3, "call": 12, "response": 4,
-           "hostile": 3, "close": 0.3, "blocked": 10, "bigbuf": 0.1}
+           "hostile": 4, "close": 0.3, "blocked": 10, "bigbuf": 0.3, "stall": 3}
 
 
 def keep(l):
@@ -72,7 +72,7 @@ def mon_backoff(tr, sc):
 
 
 def run(ctx):
-    mon = lambda tr, sc: SC.mon_sanity(tr) + mon_redial(tr, sc) + mon_backoff(tr, sc)
+    mon = lambda tr, sc: SC.mon_sanity(tr) + mon_redial(tr, sc) + mon_backoff(tr, sc) + SC.mon_deadline(tr)
     v, stats, hist, samples, nd = SC.run_property(ctx, MODULE, PROFILE, 300, 5000, [mon], keep, length=(8, 30))
     return SC.finish(ctx, v, stats, hist, samples, nd,
                      "write failures by Publish/Subscribe/Ping/persisted publishes placed before, between and after the read routine's own "
